@@ -18,16 +18,50 @@ TxOf(r) == [seq |-> r.seq, coding |-> r.coding, orfStart |-> r.orfStart, orfEnd 
 VarsOf(vs) == {[start |-> vs[k].start, end |-> vs[k].end, ref |-> vs[k].ref, alt |-> vs[k].alt, id |-> vs[k].id] :
                  k \in 1..Len(vs)}
 
+(* an entry: tx (index), ids (input variant ids), sect (transcript positions of the     *)
+(* annotated Sec codons named by SECT-<gene position> ids; -1 = names no annotated Sec), *)
+(* w2f (residue numbers named by W2F-<k> ids), seq, label                                *)
 Named(e) == {v \in VarsOf(C.txs[e.tx].vars) : v.id \in ToSet(e.ids)}
-IdsKnown(e) == e.tx > 0 /\ \A x \in ToSet(e.ids) : \E v \in VarsOf(C.txs[e.tx].vars) : v.id = x
+IdsKnown(e) == /\ e.tx > 0
+               /\ \A x \in ToSet(e.ids) : \E v \in VarsOf(C.txs[e.tx].vars) : v.id = x
+               /\ \A k \in 1..Len(e.sect) : e.sect[k] \in TxOf(C.txs[e.tx].tx).sec
+               /\ Len(e.sect) <= 1
+(* position of reference position p on the sequence carrying H                            *)
+RECURSIVE DeltaSum(_)
+DeltaSum(S) == IF S = {} THEN 0 ELSE LET x == CHOOSE y \in S : TRUE IN (Len(x.alt) - Len(x.ref)) + DeltaSum(S \ {x})
+ShiftPos(p, H) == p + DeltaSum({v \in H : v.end <= p})
+(* the peptides the named backbone gives with exactly the variants H: plain digestion      *)
+(* products, or - when the entry names a Sec termination - the fragments cut at that Sec   *)
+BasePeptides(e, tx, H) ==
+  IF Len(e.sect) = 0 THEN HapPeptidesT(tx, H, C.cfg, FALSE)
+  ELSE LET p == e.sect[1]
+           hit == \E v \in H : Overlaps(v.start, v.end, p, p + 3)
+           o == OrfOf(Apply(tx.seq, H), tx.orfStart, ShiftedSecs(tx, H))
+           k == SecResidue(tx.orfStart, ShiftPos(p, H))
+       IN IF hit \/ ~tx.coding \/ k < 1 \/ k > Len(o.pep) THEN {} ELSE
+          IF o.pep[k] # "U" THEN {} ELSE SectAt(o.pep, k, C.cfg)
+(* W>F: the peptide is the image of a base peptide under exactly the named residues        *)
+W2FSet(e) == ToSet(e.w2f)
 WitnessWith(e, H) ==
   LET tx == TxOf(C.txs[e.tx].tx) IN
-  Compatible(H, StartIdx(tx)) /\ e.seq \in HapPeptidesT(tx, H, C.cfg, FALSE)
+  /\ CompatibleLoose(H, StartIdx(tx), MaxAdj(C.cfg))
+  /\ IF W2FSet(e) = {} THEN e.seq \in BasePeptides(e, tx, H)
+     ELSE \E q \in BasePeptides(e, tx, H) :
+            Len(q) = Len(e.seq) /\ W2FSet(e) \subseteq WPos(q) /\ W2FImage(q, W2FSet(e)) = e.seq
 Witness(e) == IdsKnown(e) /\ WitnessWith(e, Named(e))
 (* the recorded finding: the witness only works after adding ONE frameshifting input variant *)
 (* of the same transcript that the entry does not name                                        *)
 MissingFrameshift(e) ==
   IdsKnown(e) /\ \E v \in VarsOf(C.txs[e.tx].vars) \ Named(e) : Frameshift(v) /\ WitnessWith(e, Named(e) \cup {v})
+
+(* the recorded finding "cleavage pattern context lost at a graph node boundary" (see C01):   *)
+(* with exactly the named variants the peptide is a fragment that a context-blind digestion    *)
+(* could produce (only meaningful for rules / exceptions that look beyond P1 / P1')             *)
+ContextWitness(e) ==
+  /\ IdsKnown(e) /\ Len(e.sect) = 0 /\ W2FSet(e) = {}
+  /\ LET tx == TxOf(C.txs[e.tx].tx)  H == Named(e) IN
+     /\ CompatibleLoose(H, StartIdx(tx), MaxAdj(C.cfg))
+     /\ \E p \in SeqOrfs(Apply(tx.seq, H), tx.coding, tx.orfStart, ShiftedSecs(tx, H)) : RelaxedFragment(C.cfg, p, e.seq)
 
 AllLabels == [k \in 1..Len(C.entries) |-> C.entries[k].label]
 Unique == \A a, b \in 1..Len(C.entries) : a # b => AllLabels[a] # AllLabels[b]
@@ -35,8 +69,9 @@ Unique == \A a, b \in 1..Len(C.entries) : a # b => AllLabels[a] # AllLabels[b]
 Verdict ==
   LET bad == {k \in 1..Len(C.entries) : ~Witness(C.entries[k])}
       fs == {k \in bad : MissingFrameshift(C.entries[k])}
+      cx == {k \in bad : ContextWitness(C.entries[k])}
   IN /\ (Unique \/ PrintT(<<"V", i, "duplicate_entry">>))
      /\ IF bad = {} THEN PrintT(<<"V", i, "ok", Len(C.entries)>>)
-        ELSE PrintT(<<"V", i, IF fs = bad THEN "missing_frameshift" ELSE "no_witness",
+        ELSE PrintT(<<"V", i, IF fs = bad THEN "missing_frameshift" ELSE IF cx = bad THEN "context_witness" ELSE "no_witness",
                      {C.entries[k].label : k \in bad}>>)
 =============================================================================
